@@ -108,6 +108,12 @@ pub fn render_batch(host: Host, blocks: &[RuleBlock]) -> Rendered {
         let end_line = line;
         line += 2;
         pos.push(BlockPos { tag_line, tag_sc, tag_ec, first_line, end_line });
+        // every fourth block is followed by a block WITHOUT any rule whose lines would violate all of them:
+        // nothing may ever be reported for it (a diagnostic there counts as stray)
+        if pos.len() % 4 == 0 {
+            text.push_str(&format!("{}<block name=\"plain{}\" note=\"no rules\">\nb\na\na\nB 1\n{}</block>\n\n", host.open(), pos.len(), host.open()));
+            line += 7;
+        }
     }
     Rendered { text, pos }
 }
@@ -151,7 +157,9 @@ impl ExpDiag {
     pub fn matches(&self, d: &Diag) -> bool {
         d.code == self.code
             && d.severity == self.severity
-            && (d.sl, d.sc, d.el, d.ec) == (self.sl, self.sc, self.el, self.ec)
+            // an EMPTY key has no last byte: its end column is unspecified (start - 1 and start are both accepted)
+            && (d.sl, d.sc, d.el) == (self.sl, self.sc, self.el)
+            && (d.ec == self.ec || (self.ec + 1 == self.sc && d.ec == self.sc))
             && self.data.iter().all(|(p, want)| {
                 d.data_json().pointer(p).map(crate::report::canonical).as_deref() == Some(want.as_str())
             })
